@@ -250,12 +250,7 @@ func NextStmt(rt *rapid.T, cfg HistCfg, db *model.DB) (model.Stmt, bool) {
 	var s model.Stmt
 	switch kind {
 	case "create":
-		name := Ident(rt, "table", tablePool)
-		for i := 0; db.Tables[name] != nil; i++ {
-			name = fmt.Sprintf("%s_%d", name, i)
-		}
-		s = model.Stmt{Kind: "create", Table: name, Cols: Columns(rt, cfg.MaxCols)}
-		direct = false
+		return CreateStmt(rt, cfg.MaxCols, db), true
 	case "insert":
 		t := db.Tables[names[rapid.IntRange(0, len(names)-1).Draw(rt, "tbl")]]
 		n := rapid.SampledFrom(cfg.RowCounts).Draw(rt, "nrows")
@@ -292,6 +287,31 @@ func NextStmt(rt *rapid.T, cfg HistCfg, db *model.DB) (model.Stmt, bool) {
 		s.SQL = RenderStmt(NewStyle(rt), s)
 	}
 	return s, true
+}
+
+// CreateStmt draws a CREATE TABLE for a table name not yet in db.
+func CreateStmt(rt *rapid.T, maxCols int, db *model.DB) model.Stmt {
+	name := Ident(rt, "table", tablePool)
+	for i := 0; db.Tables[name] != nil; i++ {
+		name = fmt.Sprintf("%s_%d", name, i)
+	}
+	s := model.Stmt{Kind: "create", Table: name, Cols: Columns(rt, maxCols)}
+	s.SQL = RenderStmt(NewStyle(rt), s)
+	return s
+}
+
+// TextInsert draws an n-row INSERT into t rendered as SQL text.
+func TextInsert(rt *rapid.T, t *model.Table, n int, small bool) model.Stmt {
+	s := InsertStmt(rt, t, n, false, small)
+	s.SQL = RenderStmt(NewStyle(rt), s)
+	return s
+}
+
+// MustApply applies a generated statement to the generator's model.
+func MustApply(db *model.DB, s model.Stmt) {
+	if k, err := db.Apply(s); k != model.OK || err != nil {
+		panic(fmt.Sprintf("generator produced an invalid statement: %v %v: %s", k, err, s))
+	}
 }
 
 func intRange(n int) []int {
